@@ -351,7 +351,9 @@ func histWorker(res *engine.Result, tier string, shard, n int) {
 	if tier == "thorough" {
 		depth = 4
 	}
-	gasOps := []gasOp{{0, 0}, {50, 50}, {100, 100}, {100, 0}, {49, 49}, {51, 51}, {100, 25}, {2, 1}}
+	// (the block gas limit of these fixtures is 100: the last two declare more gas than the limit,
+	// which a block can carry as long as the gas actually used stays below it)
+	gasOps := []gasOp{{0, 0}, {50, 50}, {100, 100}, {100, 0}, {49, 49}, {51, 51}, {100, 25}, {2, 1}, {150, 10}, {260, 90}}
 	if tier == "thorough" {
 		gasOps = append(gasOps, gasOp{98, 0}, gasOp{75, 75}, gasOp{1, 1}, gasOp{60, 40})
 	}
@@ -401,6 +403,20 @@ func histWorker(res *engine.Result, tier string, shard, n int) {
 				return "ok:" + branch
 			}})
 		}
+		// governance raises the minimum gas price above the live base fee: the base fee keeps following
+		// the recurrence (unchanged at target, raised above it) and meets the new floor only on its way down
+		ops = append(ops, engine.Op{Name: "minGasPrice(3 x base fee)", Apply: func(w *world.World, p []string, res *engine.Result) string {
+			ctx := w.App.BaseApp.VerifDeliverCtx()
+			pr := k.GetParams(ctx)
+			if pr.BaseFee.BigInt().BitLen() > 200 || pr.MinGasPrice.TruncateInt().GT(pr.BaseFee) {
+				return "skip"
+			}
+			pr.MinGasPrice = sdk.NewDecFromInt(pr.BaseFee.MulRaw(3))
+			if err := k.SetParams(ctx, pr); err != nil {
+				return "err:params"
+			}
+			return "ok"
+		}})
 		sub := engine.NewResult(Prop)
 		e := &engine.Explorer{W: w, Res: sub, Stores: []string{"feemarket"}, MaxDepth: depth, Shard: shard, NShards: n,
 			Ops: func(*world.World, int, []string) []engine.Op { return ops }}
